@@ -19,6 +19,13 @@ def run(tier):
         c3 = consts(Props={"p", "q"}, Faults=True, MaxPending=3, MaxEdits=4, MaxChain=5,
                     BigVals={"b"})
         mc_run(v, wd, "faults-seq-2r-big", c3, timeout=1700)
+    # vacuity self-test: with faults, racing, snapshots and trimming enabled every action of the
+    # specification must have been taken (TLC -coverage)
+    cv = consts(Props={"p"}, Faults=True, Racing=True, MaxPending=2, MaxEdits=3, MaxChain=4,
+                Urg={"none", "high"}, AvoidSet={"r2"}, WithTrim=True)
+    if thorough:
+        mc_run(v, wd, "coverage-all-actions", cv, invs=["ReplicaInvariant", "Converged"],
+               timeout=1500, coverage=True)
     # anti-vacuity: pinned loop + lost reply on the first of several versions (D2)
     mc_run(v, wd, "faults-pinned-loop", dict(cb, Dev={"PIN"}), init="PInit", timeout=600,
            expect="ReplicaInvariant")
